@@ -331,6 +331,113 @@ def check_c17(tier, seed):
     return v.finish("model_checking", cov, ["memory handed to free() is inspected at the wrap seam; copies the library might keep elsewhere (stack, registers) are not"], exhaustive=True)
 
 
+def check_c08(tier, seed):
+    v = Verdict("C08", tier, seed)
+    st = new_stage()
+    merged = Merged()
+    cov_flags = "-fsanitize-coverage=trace-pc-guard,trace-loads,trace-stores"
+    libs = run_parallel([lambda: mkbuild("ctcov", cc="clang", common="-O3 -g " + cov_flags + " -Wall").build(st, jobs=8),
+                         lambda: mkbuild("ctcov-w32", cc="clang", common="-O3 -g " + cov_flags + " -Wall", defs=["-DSKINNY_C_VERIF_64BIT=0"]).build(st, jobs=8)], workers=2)
+    ctl = os.path.join(st, "ctl_table.o")
+    vplib.sh(["clang", "-O3"] + cov_flags.split() + ["-c", os.path.join(VERIF, "harness", "ctl_table.c"), "-o", ctl])
+    per = {}
+    srcs = ["common.c", "pin.c", "families.c", "alloc.c", "obj.c", "h_ct.c"]
+    for lib in libs:
+        binary = build_harness(st, lib, "ct", srcs, wraps=MC_WRAPS, extra_ld=[ctl], ref=False)
+        args = ["--tier", tier, "--seed", str(seed), "--label", lib.name, "--maxbe", str(lib.maxbe)]
+        spec = {"sources": srcs, "special": "c08", "build": lib.name, "args": args}
+        m = Merged()
+        for res in run_sharded(binary, args, st, "ct-" + lib.name, nshards=NCPU):
+            m.add(res, spec); merged.add(res, spec)
+        v.handle(m, make_replayer(binary, args))
+        per[lib.name] = m.evaluations
+    combos = sum(val for k, val in merged.notes.items() if k.startswith("public_parameter_combinations"))
+    lvl2 = ct_level2(st, tier, seed, v)
+    cov = {"evaluations": merged.evaluations + lvl2["segments_compared"], "distinct_nontrivial": merged.distinct, "machine_level": lvl2,
+           "rule": "for every public-parameter combination (program x cipher/variant x key length x tweak/counter length x rounds x mode x call size in {1,B-1,B,B+1,batch,batch+1,2*batch+3} x back end) "
+                   "the operation is traced for a baseline secret and for each alternative: all-zero and all-FF fills and byte substitutions (%s) at every position of key, tweak, counter, data "
+                   "and per-call tweak, plus carry-chain counters; trace = sequence of basic-block edges and load/store addresses of library code (clang trace-pc-guard, trace-loads, trace-stores at -O3, "
+                   "64-bit-word and 32-bit-word builds); all traces of a combination must be identical; distinct = distinct alternative secrets traced" % ("all 256 values" if tier == "thorough" else "00,01,7f,80,ff,x^55"),
+           "samples": merged.samples, "notes": merged.notes, "public_parameter_combinations": int(combos), "traces_per_build": per, "builds": [l.describe() for l in libs]}
+    return v.finish("exploration", cov,
+                    ["2-safety decided by enumeration over a secret alphabet, not for all secrets", "level 1 observes IR-level edges and accesses of a clang -O3 build (32-byte vector accesses are not instrumented); level 2 observes every instruction and access of the shipped gcc -O3 objects under valgrind lackey over a smaller secret alphabet",
+                     "variable-latency instructions are outside the observation"])
+
+
+def ct_level2(st, tier, seed, v):
+    """Machine-level traces of the shipped gcc -O3 objects under valgrind lackey."""
+    import subprocess
+    lib = mkbuild("shipped").build(st)
+    ctl = os.path.join(st, "ctl_table_gcc.o")
+    vplib.sh(["gcc", "-O3", "-c", os.path.join(VERIF, "harness", "ctl_table.c"), "-o", ctl])
+    srcs = ["common.c", "pin.c", "families.c", "alloc.c", "obj.c", "h_ct2.c"]
+    binary = build_harness(st, lib, "ct2", srcs, wraps=MC_WRAPS, extra_ld=[ctl, "-no-pie"], ref=False,
+                           cflags="-O1 -g -fno-pie -Wall -Wextra -Wno-unused-parameter")
+    cmpbin = os.path.join(st, "lackey_cmp")
+    vplib.sh(["gcc", "-O2", os.path.join(VERIF, "harness", "lackey_cmp.c"), "-o", cmpbin])
+    # symbol addresses
+    libsyms = set()
+    for line in vplib.sh(["nm", "--defined-only", lib.lib]).stdout.splitlines():
+        parts = line.split()
+        if len(parts) == 3 and parts[1] in ("T", "t"):
+            libsyms.add(parts[2])
+    syms = []
+    for line in vplib.sh(["nm", "-n", "--defined-only", binary]).stdout.splitlines():
+        parts = line.split()
+        if len(parts) == 3:
+            syms.append((int(parts[0], 16), parts[1], parts[2]))
+    text = [x for x in syms if x[1] in ("T", "t")]
+    addr = {n: a for a, t, n in syms}
+    libaddrs = [a for a, t, n in text if n in libsyms and not n.startswith("_init") and not n.startswith("_fini")]
+    # harness functions share no names with the library; the library's members are contiguous in the link
+    lo = min(libaddrs)
+    hi_sym = max(libaddrs)
+    later = [a for a, t, n in text if a > hi_sym]
+    hi = min(later) if later else hi_sym + 0x4000
+    foreign = [n for a, t, n in text if lo <= a < hi and n not in libsyms]
+    if foreign:
+        raise EngineError("library text range is not contiguous in the link: %s" % foreign[:5])
+    mb, me = addr["ct2_marker_begin"], addr["ct2_marker_end"]
+    clo = addr["ctl_table_sbox"]
+    chi = min(a for a, t, n in text if a > clo)
+    args0 = ["--tier", tier, "--seed", str(seed), "--maxbe", str(lib.maxbe)]
+    n = int(vplib.sh([binary] + args0 + ["--sub", "count"]).stdout.split()[0])
+
+    def lackey(sub, rlo, rhi):
+        cmd = "valgrind --tool=lackey --trace-mem=yes --basic-counts=no --log-fd=9 %s %s --sub %s 9>&1 >/dev/null 2>/dev/null | %s %x %x %x %x" % (
+            binary, " ".join(args0), sub, cmpbin, rlo, rhi, mb, me)
+        out = vplib.sh(cmd, timeout=3000).stdout
+        segs = [l.split() for l in out.splitlines() if l.startswith("seg ")]
+        if not any(l.startswith("end ") for l in out.splitlines()) or len(segs) < 4:
+            raise EngineError("lackey run produced no segments for %s: %s" % (sub, out[-500:]))
+        return [(s[2], int(s[3]), int(s[4])) for s in segs]
+
+    ctl_segs = lackey("control", clo, chi)
+    if len(set(ctl_segs[2:])) < 2:
+        raise EngineError("machine-level positive control missed: table-lookup S-box traces identical")
+    step = 1 if tier == "thorough" else max(1, n // 40)
+    idxs = list(range(0, n, step))
+    res = run_parallel([lambda i=i: (i, lackey(str(i), lo, hi)) for i in idxs], workers=NCPU)
+    nseg = 0; maxev = 0; bad = []
+    for i, segs in res:
+        ref = segs[2]
+        nseg += len(segs) - 2
+        maxev = max(maxev, ref[1])
+        if ref[2] < 20:
+            raise EngineError("combo %d: the library executed only %d instructions inside the markers (range wrong?)" % (i, ref[2]))
+        for k, sg in enumerate(segs[3:], start=3):
+            if sg != ref:
+                bad.append((i, k, ref, sg)); break
+    for i, k, ref, sg in bad:
+        desc = vplib.sh([binary] + args0 + ["--sub", str(i)]).stdout.strip().splitlines()[-1]
+        v.new.append({"sig": "C08/machine-level/secret-dependent-trace", "case": "", "label": "shipped-lackey", "replay": None,
+                      "detail": "%s: segment %d (alternative secret) has digest %s over %d events, baseline %s over %d events: the instruction or address trace of the shipped gcc -O3 objects depends on secret data"
+                                % (desc, k, sg[0], sg[1], ref[0], ref[1])})
+    return {"combinations_run": len(idxs), "combinations_total": n, "segments_compared": nseg, "longest_segment_events": maxev,
+            "control_distinct_segments": len(set(ctl_segs[2:])), "build": lib.describe(),
+            "library_text_range": "%x-%x" % (lo, hi)}
+
+
 def check_c18(tier, seed):
     v = Verdict("C18", tier, seed)
     st = new_stage()
@@ -424,6 +531,7 @@ REGISTRY = {
     "C05": check_c05,
     "C06": check_c06,
     "C07": check_c07,
+    "C08": check_c08,
     "C10": check_c10,
     "C14": check_c14,
     "C15": check_c15,
